@@ -233,7 +233,7 @@ def run_one(unit, run, exinfo, tier, want_trace=False, nocache=False, only_props
         flags += ['--unwindset', '%s:%d' % (lk, lv)]
     if run.get('unwindset'):
         flags += ['--unwinding-assertions']
-    solver = run.get('solver', '')
+    solver = os.environ.get('VERIF_SOLVER') or run.get('solver', '')
     if solver == 'kissat':
         flags += ['--external-sat-solver', 'kissat']
     elif solver in ('cvc5', 'z3'):
